@@ -1,4 +1,5 @@
 import AranyaV.Proofs.Conc.BiArc
+import AranyaV.Gen.ConcOrd
 /-!
 # C44 — Channel loans are exclusive and freed exactly once
 
@@ -15,6 +16,30 @@ load suffice on weak memory is not shown).
 namespace AranyaV.BiArc
 
 open AranyaV.Conc
+
+/-! ## memory orderings: the side condition of the sequentially consistent model -/
+
+/-- Minimal ordering of each atomic access of `BiArc` (the step from this table to "SC
+reasoning is sound" is the unmechanised release/acquire (DRF-SC) argument — trusted base):
+
+* `try_clone` `swap(SHARED)`: **Acquire** — when it returns UNSHARED a new `Loan` is created that
+  will read and write the exclusive data last written by the previous `Loan`, whose drop released
+  it with `swap(UNSHARED)`; the swap publishes nothing itself.
+* `get_if_shared` `load`: **Acquire** — the observing read that decides whether the `Loan` may
+  touch the data (dependent accesses follow).
+* `drop` `swap(UNSHARED)`: **AcqRel** — a read-modify-write that does both: *release* (this
+  handle's accesses to the data happen before the other handle frees it) and *acquire* (if this
+  handle is the one that frees, it must have seen the other handle's accesses). -/
+def biarcOrdRoles : List OrdPair :=
+  [(.acquire, .relaxed), (.acquire, .relaxed), (.acqRel, .relaxed)]
+
+/-- **The orderings written in `lender.rs` are at least what their roles require**, and the
+set of atomic accesses is exactly the one that was classified. -/
+theorem orderings_sufficient :
+    AranyaV.Gen.ConcOrd.biarcShape =
+      ["try_clone:state:swap", "get_if_shared:state:load", "drop:state:swap"] ∧
+    sufficient biarcOrdRoles AranyaV.Gen.ConcOrd.biarcOrds = true :=
+  ⟨rfl, by decide⟩
 
 /-- **At most one live `Loan`.** -/
 theorem one_loan {n : Nat} {s : State} (h : Reachable n s) {t u : Nat} {a b : Th}
